@@ -276,7 +276,7 @@ Qed.
 
 Lemma unbond_idx : forall s a s', idx_inv s -> unbond s a = Ok s' -> idx_inv s'.
 Proof.
-  intros s a s' (I1 & I2 & I3) H. unfold unbond in H. guards H.
+  intros s a s' (I1 & I2 & I3) H. unfold unbond, unbond_gen in H. guards H.
   inversion H; subst; clear H. rename o into r. rename Heqo into Hr.
   destruct (I1 _ _ Hr) as (RA & RB & RE).
   unfold idx_inv; proj. repeat split.
